@@ -16,3 +16,4 @@ def check(rep, tier):
     rep.run(_rn.run_near_tie, rep)
     from contracts import rules_shape as _rs2
     rep.run(_rs2.run_linalg, rep, tier)       # tangent shapes of the linalg rules (forward rules the module registers)
+    rep.run(_rs2.run_scipy_special, rep, tier)
